@@ -15,7 +15,7 @@ use crate::Cfg;
 pub const FLOORS: &[&str] = &[
     "after:accepted", "after:rejected_in_lexer", "after:rejected_after_labels", "after:rejected_in_backpatch",
     "after:rejected_in_emit", "shares_labels_with_predecessor", "repeat_same_source", "with_orig", "without_orig",
-    "with_break", "histories", "after_many_labels", "extension_program:flag_on", "extension_program:flag_off", "several_undefined_labels", "reserved_looking_label",
+    "with_break", "histories", "after_many_labels", "extension_program:flag_on", "extension_program:flag_off", "several_undefined_labels", "reserved_looking_label", "after_a_line_in_another_assemblers_dialect",
 ];
 
 fn summary(o: &AsmOutcome) -> String {
@@ -140,6 +140,14 @@ fn gen_source(rng: &mut Rng, stack: bool, prev_labels: &[String]) -> (String, &'
     }
 }
 
+/// Lines other assemblers (ca65, gas, nasm, lc3as, PennSim, MARS) understand as a switch of some kind.
+const FOREIGN_LINES: &[&str] = &[
+    ".feature stack", ".FEATURE stack", ".feature stack,", ".feature STACK", ".features stack", ".option stack", ".arch stack", ".arch_extension stack",
+    ".enable stack", ".extension stack", ".ext stack", ".set stack 1", ".set stack", ".define stack", ".mode stack", ".stack", ".stack on", ".use stack",
+    ".include \"stack.asm\"", ".import stack", ".external push", ".extern pop", ".global main", ".text", ".data", ".code", ".equ stack 1", ".p816", ".cpu lc3b",
+    ".syntax unified", ".macro push", ".pragma stack", "#pragma stack", "%include \"stack.inc\"", "-f stack", ";! stack", "; lace: -f stack", ".orig x3000 stack",
+];
+
 fn labels_of(text: &str) -> Vec<String> {
     text.lines()
         .filter_map(|l| l.split(|c: char| c.is_whitespace() || c == ':' || c == ',').find(|t| !t.is_empty()))
@@ -166,6 +174,17 @@ fn one_case(seed: u64, i: u64) -> CaseOut {
             // repeat an earlier source
             let s = rng.pick(&sources).clone();
             sources.push((s.0, "repeat"));
+            continue;
+        }
+        if rng.chance(1, 8) {
+            // a line in the dialect of another assembler that would switch something on there (a feature, an
+            // architecture extension, a mode), then the same program without that line: whatever the first
+            // text is made of, the second is judged on its own
+            let body = rng.s(&["push r0\npop r1\nhalt\n", "call f\nhalt\nf rets\n", "add r0 r0 #1\nhalt\n", "lab pop r1\nhalt\n"]);
+            let line = rng.s(FOREIGN_LINES);
+            sources.push((format!("{}\n{}", line, body), "foreign_directive_line"));
+            sources.push((body.to_string(), if body.contains("add r0") { "generated" } else { "extension_program" }));
+            prev = labels_of(body);
             continue;
         }
         let s = gen_source(&mut rng, stack, &prev);
@@ -238,6 +257,9 @@ fn one_case(seed: u64, i: u64) -> CaseOut {
                 AsmOutcome::Crashed { .. } => "after:crashed",
             };
             out.class(cls);
+            if sources[k - 1].1 == "foreign_directive_line" {
+                out.class("after_a_line_in_another_assemblers_dialect");
+            }
             if sources[k - 1].1 == "many_labels" {
                 out.class("after_many_labels");
             }
